@@ -238,3 +238,57 @@ func VP_C19_NotifyIffSuccess() {
 	vpAssert("notified-iff-the-change-succeeded", (len(own.Notify) == 1) == (oerr == nil || always) && len(own.Notify) <= 1)
 	vpCover("end")
 }
+
+// VP_C19_HookStoreFollowsReload: after a reload that moves the store to another base directory,
+// the hooks started for later changes get the new directory in WHAWTY_AUTH_STORE.
+// (exec is recorded by the engine: model-level)
+func VP_C19_HookStoreFollowsReload() {
+	if !vpSymbolic() {
+		return
+	}
+	root := vpTempDir()
+	baseA, baseB := filepath.Join(root, "a"), filepath.Join(root, "b")
+	os.Mkdir(baseA, 0700)
+	os.Mkdir(baseB, 0700)
+	dir := filepath.Join(root, "hooks")
+	os.Mkdir(dir, 0755)
+	os.WriteFile(filepath.Join(dir, "hook"), []byte("#!/bin/sh\n"), 0755)
+	vpHookBehaviour(0)
+	cfg := filepath.Join(root, "c.yaml")
+	vpYAMLFile(cfg, vpConfigDoc(baseB, 1))
+	vpSeedUser(cfg, "boss", "bosspw", true)
+	vpYAMLFile(cfg, vpConfigDoc(baseA, 1))
+	vpSeedUser(cfg, "root", "rootpw", true)
+	s, err := NewStore(cfg, "", "", "", dir)
+	if err != nil {
+		panic("setup: " + err.Error())
+	}
+	st := s.GetInterface()
+	st.Check()
+	moved := vpChoose("reload-moves-the-store", 2) == 1
+	want := baseA
+	if moved {
+		vpYAMLFile(cfg, vpConfigDoc(baseB, 1))
+		want = baseB
+	}
+	if vpChoose("reload", 2) == 1 || moved {
+		vpSignalHUP()
+		st.Check()
+		st.Check()
+	}
+	vpSettle()
+	before := vpExecCount()
+	vpAssert("change-ok", st.Add("w", "wpw", false) == nil)
+	vpSettle()
+	for k := 0; k < 2; k++ {
+		vpFireTimers()
+		vpSettle()
+	}
+	vpAssert("model: a-hook-round-follows-the-change", vpExecCount() > before)
+	ok := true
+	for i := before; i < vpExecCount(); i++ {
+		ok = ok && vpExecHasEnv(i, "WHAWTY_AUTH_STORE="+want)
+	}
+	vpAssert("model: hooks-get-the-current-store-directory", ok)
+	vpCover("end")
+}
